@@ -61,12 +61,6 @@ def parseHeaders : Nat → List String → Option (List ImageHeaderFields × Lis
     pure (h :: r, rest)
   | _, _ => none
 
-/-- what lies below the outermost segment: its formatted data is the raw data of the outermost one -/
-def below : Seg → Seg
-  | .orient _ _ p => p
-  | .cplx _ _ _ _ p => p
-  | t => t
-
 def asmTree (hs : List ImageHeaderFields) (o : ReaderOptions) : Except Err Seg :=
   match hs with
   | [h] => assemble h o
